@@ -57,6 +57,8 @@ type c18Case struct {
 	History []c18CfgStep `json:"history,omitempty"`
 	// recover family: a text that does not parse, given to Entry; then Docs are parsed
 	Bad    string    `json:"bad,omitempty"`
+	// alias family: a history over several bags that look at one tree
+	AOps   []c18AOp  `json:"alias_ops,omitempty"`
 	Sweep  bool      `json:"sweep"`
 	Cell   string    `json:"cell,omitempty"`
 }
